@@ -315,6 +315,21 @@ pub assume_specification<T, F: FnOnce() -> T> [std::option::Option::<T>::get_or_
     requires *old(o) is None ==> f.requires(()),
     ensures *old(o) matches Some(v) ==> *r == v, *old(o) is None ==> f.ensures((), *r),
         *final(o) == std::option::Option::<T>::Some(*final(r));
+pub assume_specification<T, E> [std::option::Option::<std::result::Result<T, E>>::transpose] (a: std::option::Option<std::result::Result<T, E>>) -> (r: std::result::Result<std::option::Option<T>, E>)
+    ensures r == (match a { None => Ok::<std::option::Option<T>, E>(None), Some(Ok(x)) => Ok(Some(x)), Some(Err(e)) => Err(e) });
+pub assume_specification<T> [std::option::Option::<std::option::Option<T>>::flatten] (a: std::option::Option<std::option::Option<T>>) -> (r: std::option::Option<T>)
+    ensures r == (match a { Some(x) => x, None => None });
+pub assume_specification<T> [std::option::Option::<T>::xor] (a: std::option::Option<T>, b: std::option::Option<T>) -> (r: std::option::Option<T>)
+    ensures r == (match (a, b) { (Some(x), None) => Some(x), (None, Some(y)) => Some(y), _ => None });
+pub assume_specification<'a, T: Copy> [std::option::Option::<&'a T>::copied] (a: std::option::Option<&'a T>) -> (r: std::option::Option<T>)
+    ensures r == (match a { Some(x) => Some(*x), None => None });
+pub assume_specification<T, E, U> [std::result::Result::<T, E>::and] (a: std::result::Result<T, E>, b: std::result::Result<U, E>) -> (r: std::result::Result<U, E>)
+    ensures r == (match a { Ok(_) => b, Err(e) => Err(e) });
+pub assume_specification<T, U, D: FnOnce() -> U, F: FnOnce(T) -> U> [std::option::Option::<T>::map_or_else] (a: std::option::Option<T>, d: D, f: F) -> (r: U)
+    requires a is Some ==> f.requires((a.unwrap(),)), a is None ==> d.requires(()),
+    ensures a is None ==> d.ensures((), r), a is Some ==> f.ensures((a.unwrap(),), r);
+pub assume_specification<T> [bool::then_some] (b: bool, t: T) -> (r: std::option::Option<T>)
+    ensures r == (if b { Some(t) } else { None });
 pub assume_specification<T, U> [std::option::Option::<T>::zip] (a: std::option::Option<T>, b: std::option::Option<U>) -> (r: std::option::Option<(T, U)>)
     ensures r == (match (a, b) { (Some(x), Some(y)) => Some((x, y)), _ => std::option::Option::<(T, U)>::None });
 }
